@@ -429,5 +429,5 @@ LEVEL_TEXT = ('Every raw write/truncate/fsync/create the designated transaction 
               'plus aborts at every protocol phase, quota, conflict, over-long metadata and wrong-transaction calls; '
               'after each the in-memory battery, a reopened copy of the data file, the commit lock and a follow-up '
               'transaction are checked. Exhaustive over fault points per generated history.')
-LEVEL_NOTE = ('Trusted: rawio fault layer, reference model. Connection-level failing participants are exercised in C11/C13. '
+LEVEL_NOTE = ('Trusted: rawio fault layer, reference model. Connection-level interruptions (failing participants, conflicts, unpicklable objects, with savepoints) run on the object-level model of vlib/objprog (shared with C11/C12); blobs: C13. '
               'Fault = exception from the raw write/truncate/fsync; silent short writes by the OS are not modelled.')
